@@ -726,5 +726,881 @@ theorem increment_eq_incrStep (s : Sketch) (hash : UInt64) :
         · rfl
     · rfl
 
+/-! ### The effect of the four counter updates -/
+
+/-- `(x, y)` is one of the four counter positions `(idx i, st + i)`. -/
+def hitsGen (idx : Nat → Nat) (st x y : Nat) : Prop := ∃ i, i < 4 ∧ x = idx i ∧ y = st + i
+
+instance (idx : Nat → Nat) (st x y : Nat) : Decidable (hitsGen idx st x y) := by
+  unfold hitsGen; infer_instance
+
+theorem bumpGen_size (idx : Nat → Nat) (st : Nat) (t : Array Nat) :
+    (bumpTableGen incrementAt idx st t).1.size = t.size := by
+  unfold bumpTableGen
+  simp only [incrementAt_size]
+
+theorem bumpGen_wordsOK (idx : Nat → Nat) (st : Nat) (t : Array Nat) (hst : st ≤ 12)
+    (ht : WordsOK t) : WordsOK (bumpTableGen incrementAt idx st t).1 := by
+  unfold bumpTableGen
+  exact incrementAt_wordsOK _ _ _ (by omega) <| incrementAt_wordsOK _ _ _ (by omega) <|
+    incrementAt_wordsOK _ _ _ (by omega) <| incrementAt_wordsOK _ _ _ (by omega) ht
+
+theorem bumpGen_cnt (idx : Nat → Nat) (st : Nat) (t : Array Nat) (x y : Nat)
+    (hidx : ∀ i, idx i < t.size) :
+    cntAt (bumpTableGen incrementAt idx st t).1 x y
+      = if hitsGen idx st x y then satInc (cntAt t x y) else cntAt t x y := by
+  unfold bumpTableGen
+  simp only []
+  rw [incrementAt_cnt _ _ _ _ _ (by simp only [incrementAt_size]; exact hidx 3),
+    incrementAt_cnt _ _ _ _ _ (by simp only [incrementAt_size]; exact hidx 2),
+    incrementAt_cnt _ _ _ _ _ (by simp only [incrementAt_size]; exact hidx 1),
+    incrementAt_cnt _ _ _ _ _ (hidx 0)]
+  by_cases h : hitsGen idx st x y
+  · rw [if_pos h]
+    obtain ⟨i, hi, rfl, rfl⟩ := h
+    have : i = 0 ∨ i = 1 ∨ i = 2 ∨ i = 3 := by omega
+    rcases this with rfl | rfl | rfl | rfl <;> simp
+  · rw [if_neg h]
+    have h0 : ¬ (x = idx 0 ∧ y = st + 0) := fun hh => h ⟨0, by omega, hh.1, hh.2⟩
+    have h1 : ¬ (x = idx 1 ∧ y = st + 1) := fun hh => h ⟨1, by omega, hh.1, hh.2⟩
+    have h2 : ¬ (x = idx 2 ∧ y = st + 2) := fun hh => h ⟨2, by omega, hh.1, hh.2⟩
+    have h3 : ¬ (x = idx 3 ∧ y = st + 3) := fun hh => h ⟨3, by omega, hh.1, hh.2⟩
+    rw [if_neg h3, if_neg h2, if_neg h1, if_neg h0]
+
+theorem incrementAt_sum' (t : Array Nat) (idx j : Nat) (hidx : idx < t.size) (hj : j < 16) :
+    tableSum (incrementAt t idx j).1 = tableSum t + (incrementAt t idx j).2.toNat := by
+  rw [incrementAt_sum t idx j hidx hj]
+  cases (incrementAt t idx j).2 <;> rfl
+
+theorem bool4 (b0 b1 b2 b3 : Bool) :
+    b0.toNat + b1.toNat + b2.toNat + b3.toNat ≤ if (b0 || b1 || b2 || b3) = true then 4 else 0 := by
+  revert b0 b1 b2 b3; decide
+
+theorem bumpGen_sum (idx : Nat → Nat) (st : Nat) (t : Array Nat) (hst : st ≤ 12)
+    (hidx : ∀ i, idx i < t.size) :
+    tableSum (bumpTableGen incrementAt idx st t).1
+      ≤ tableSum t + (if (bumpTableGen incrementAt idx st t).2 = true then 4 else 0) := by
+  unfold bumpTableGen
+  simp only []
+  have e0 := incrementAt_sum' t (idx 0) (st + 0) (hidx 0) (by omega)
+  have e1 := incrementAt_sum' (incrementAt t (idx 0) (st + 0)).1 (idx 1) (st + 1)
+    (by simp only [incrementAt_size]; exact hidx 1) (by omega)
+  have e2 := incrementAt_sum' (incrementAt (incrementAt t (idx 0) (st + 0)).1 (idx 1)
+    (st + 1)).1 (idx 2) (st + 2) (by simp only [incrementAt_size]; exact hidx 2) (by omega)
+  have e3 := incrementAt_sum' (incrementAt (incrementAt (incrementAt t (idx 0) (st + 0)).1
+    (idx 1) (st + 1)).1 (idx 2) (st + 2)).1 (idx 3) (st + 3)
+    (by simp only [incrementAt_size]; exact hidx 3) (by omega)
+  have e4 := bool4 (incrementAt t (idx 0) (st + 0)).2
+    (incrementAt (incrementAt t (idx 0) (st + 0)).1 (idx 1) (st + 1)).2
+    (incrementAt (incrementAt (incrementAt t (idx 0) (st + 0)).1 (idx 1)
+      (st + 1)).1 (idx 2) (st + 2)).2
+    (incrementAt (incrementAt (incrementAt (incrementAt t (idx 0) (st + 0)).1
+      (idx 1) (st + 1)).1 (idx 2) (st + 2)).1 (idx 3) (st + 3)).2
+  omega
+
+/-! ### Sketch-level statements about `bump` -/
+
+/-- Counter position `(x, y)` is one of the four positions of `hash`. -/
+def hits (s : Sketch) (hash : UInt64) (x y : Nat) : Prop :=
+  hitsGen (s.indexOf hash) (start hash) x y
+
+instance (s : Sketch) (hash : UInt64) (x y : Nat) : Decidable (hits s hash x y) := by
+  unfold hits; infer_instance
+
+theorem hits_congr {s s' : Sketch} (h : s'.mask = s.mask) (hash : UInt64) (x y : Nat) :
+    hits s' hash x y ↔ hits s hash x y := by
+  unfold hits hitsGen
+  simp only [indexOf_congr h]
+
+theorem hits_self (s : Sketch) (hash : UInt64) (i : Nat) (hi : i < 4) :
+    hits s hash (s.indexOf hash i) (start hash + i) := ⟨i, hi, rfl, rfl⟩
+
+/-! Projections of explicit records, with abstract fields: the kernel must never be asked to
+compare a concrete table expression with `s.table` by unfolding. -/
+theorem mk_sampleSize (a b : Nat) (c : Array Nat) (d : Nat) : (Sketch.mk a b c d).sampleSize = a := rfl
+theorem mk_mask (a b : Nat) (c : Array Nat) (d : Nat) : (Sketch.mk a b c d).mask = b := rfl
+theorem mk_table (a b : Nat) (c : Array Nat) (d : Nat) : (Sketch.mk a b c d).table = c := rfl
+theorem mk_size (a b : Nat) (c : Array Nat) (d : Nat) : (Sketch.mk a b c d).size = d := rfl
+
+theorem bump_mask (s : Sketch) (hash : UInt64) : (bump s hash).mask = s.mask := by
+  unfold bump; exact mk_mask _ _ _ _
+theorem bump_sampleSize (s : Sketch) (hash : UInt64) :
+    (bump s hash).sampleSize = s.sampleSize := by
+  unfold bump; exact mk_sampleSize _ _ _ _
+theorem bump_table (s : Sketch) (hash : UInt64) : (bump s hash).table = (bumpTable s hash).1 := by
+  unfold bump; exact mk_table _ _ _ _
+theorem bump_size (s : Sketch) (hash : UInt64) :
+    (bump s hash).size = if (bumpTable s hash).2 = true then s.size + 1 else s.size := by
+  unfold bump; exact mk_size _ _ _ _
+
+theorem bump_table_size (s : Sketch) (hash : UInt64) :
+    (bump s hash).table.size = s.table.size := by
+  rw [bump_table]; exact bumpGen_size (s.indexOf hash) (start hash) s.table
+
+theorem wf_bump {s : Sketch} (h : WF s) (hash : UInt64) : WF (bump s hash) := by
+  apply wf_of_parts
+  · rw [bump_table]
+    exact bumpGen_wordsOK (s.indexOf hash) (start hash) s.table (start_le hash) h.wordsOK
+  · rw [bump_table_size, bump_mask]; exact h.2.1
+  · rw [bump_mask]; exact h.2.2.1
+  · rw [bump_table_size]; exact h.2.2.2
+
+/-- `bump` saturating-increments exactly the four counters of `hash`. -/
+theorem bump_cnt {s : Sketch} (h : WF s) (hne : s.table.size ≠ 0) (hash : UInt64) (x y : Nat) :
+    cntAt (bump s hash).table x y
+      = if hits s hash x y then satInc (cntAt s.table x y) else cntAt s.table x y := by
+  rw [bump_table]
+  exact bumpGen_cnt (s.indexOf hash) (start hash) s.table x y (fun i => indexOf_lt h hne hash i)
+
+theorem bump_sum {s : Sketch} (h : WF s) (hne : s.table.size ≠ 0) (hash : UInt64) :
+    tableSum (bump s hash).table
+      ≤ tableSum s.table + (if (bumpTable s hash).2 = true then 4 else 0) := by
+  rw [bump_table]
+  exact bumpGen_sum (s.indexOf hash) (start hash) s.table (start_le hash)
+    (fun i => indexOf_lt h hne hash i)
+
+theorem bump_cnt_ge {s : Sketch} (h : WF s) (hne : s.table.size ≠ 0) (hash : UInt64) (x y : Nat) :
+    cntAt s.table x y ≤ cntAt (bump s hash).table x y := by
+  rw [bump_cnt h hne]
+  unfold satInc
+  have := cntAt_le s.table x y
+  split <;> omega
+
+/-! ### `frequency` through `cntAt` -/
+
+theorem counterAt_eq (s : Sketch) (hash : UInt64) (i : Nat) :
+    counterAt s hash i = cntAt s.table (s.indexOf hash i) (start hash + i) := rfl
+
+theorem frequency_eq (s : Sketch) (hash : UInt64) (hne : s.table.size ≠ 0) :
+    frequency s hash =
+      min (min (counterAt s hash 0) (counterAt s hash 1))
+          (min (counterAt s hash 2) (counterAt s hash 3)) := by
+  unfold frequency; rw [if_neg hne]
+
+theorem counterAt_le (s : Sketch) (hash : UInt64) (i : Nat) : counterAt s hash i ≤ 15 := by
+  rw [counterAt_eq]; exact cntAt_le _ _ _
+
+/-- C14 (1) at the level of single states. -/
+theorem frequency_le (s : Sketch) (hash : UInt64) : frequency s hash ≤ 15 := by
+  unfold frequency
+  split
+  · omega
+  · have := counterAt_le s hash 0
+    omega
+
+theorem le_frequency_iff (s : Sketch) (hash : UInt64) (hne : s.table.size ≠ 0) (k : Nat) :
+    k ≤ frequency s hash ↔ ∀ i, i < 4 → k ≤ counterAt s hash i := by
+  rw [frequency_eq s hash hne]
+  constructor
+  · intro h i hi
+    have : i = 0 ∨ i = 1 ∨ i = 2 ∨ i = 3 := by omega
+    rcases this with rfl | rfl | rfl | rfl <;> omega
+  · intro h
+    have h0 := h 0 (by omega); have h1 := h 1 (by omega)
+    have h2 := h 2 (by omega); have h3 := h 3 (by omega)
+    omega
+
+theorem frequency_le_counterAt (s : Sketch) (hash : UInt64) (hne : s.table.size ≠ 0) (i : Nat)
+    (hi : i < 4) : frequency s hash ≤ counterAt s hash i :=
+  (le_frequency_iff s hash hne _).1 (Nat.le_refl _) i hi
+
+/-- Pointwise monotone change of the table, same mask: frequencies do not decrease. -/
+theorem frequency_mono {s s' : Sketch} (hm : s'.mask = s.mask) (hne : s.table.size ≠ 0)
+    (hne' : s'.table.size ≠ 0) (hc : ∀ x y, cntAt s.table x y ≤ cntAt s'.table x y)
+    (hash : UInt64) : frequency s hash ≤ frequency s' hash := by
+  rw [le_frequency_iff s' hash hne']
+  intro i hi
+  have h1 := frequency_le_counterAt s hash hne i hi
+  rw [counterAt_eq] at h1 ⊢
+  rw [indexOf_congr hm]
+  exact Nat.le_trans h1 (hc _ _)
+
+/-- Pointwise halving of the table, same mask: every frequency is floor-halved
+(min commutes with floor-halving). -/
+theorem frequency_halved {s s' : Sketch} (hm : s'.mask = s.mask)
+    (hsz : s'.table.size = s.table.size)
+    (hc : ∀ x y, y < 16 → cntAt s'.table x y = cntAt s.table x y / 2)
+    (hash : UInt64) : frequency s' hash = frequency s hash / 2 := by
+  by_cases hne : s.table.size = 0
+  · unfold frequency; rw [if_pos hne, if_pos (hsz.trans hne)]
+  · have hne' : s'.table.size ≠ 0 := by rw [hsz]; exact hne
+    rw [frequency_eq s hash hne, frequency_eq s' hash hne']
+    rw [counterAt_eq, counterAt_eq, counterAt_eq, counterAt_eq, counterAt_eq, counterAt_eq, counterAt_eq, counterAt_eq]
+    rw [indexOf_congr hm, indexOf_congr hm, indexOf_congr hm, indexOf_congr hm]
+    have hs := start_le hash
+    rw [hc _ _ (show start hash + 0 < 16 by omega), hc _ _ (show start hash + 1 < 16 by omega),
+      hc _ _ (show start hash + 2 < 16 by omega), hc _ _ (show start hash + 3 < 16 by omega)]
+    generalize cntAt s.table (s.indexOf hash 0) (start hash + 0) = a
+    generalize cntAt s.table (s.indexOf hash 1) (start hash + 1) = b
+    generalize cntAt s.table (s.indexOf hash 2) (start hash + 2) = c
+    generalize cntAt s.table (s.indexOf hash 3) (start hash + 3) = d
+    omega
+
+/-! ### `reset` -/
+
+theorem reset_false_eq (s : Sketch) :
+    reset false s =
+      if oddTotal s.table > U32_MAX then .error .overflow
+      else if s.size < oddTotal s.table / 4 then .error .overflow
+      else .ok { s with table := s.table.map halveWord,
+                        size := (s.size - oddTotal s.table / 4) / 2 } := by
+  unfold reset oddTotal
+  rw [foldl_eq_sumBy]
+  rfl
+
+theorem reset_true_eq (s : Sketch) :
+    reset true s =
+      if oddTotal s.table > U32_MAX then .error .overflow
+      else if s.size / 2 < oddTotal s.table / 4 then .error .overflow
+      else .ok { s with table := s.table.map halveWord,
+                        size := s.size / 2 - oddTotal s.table / 4 } := by
+  unfold reset oddTotal
+  rw [foldl_eq_sumBy]
+  rfl
+
+/-- What a successful aging step does. -/
+theorem reset_ok {s s' : Sketch} (h : reset false s = .ok s') :
+    s'.table = s.table.map halveWord ∧ s'.mask = s.mask ∧ s'.sampleSize = s.sampleSize ∧
+      s'.size = (s.size - oddTotal s.table / 4) / 2 ∧ oddTotal s.table ≤ U32_MAX ∧
+      oddTotal s.table / 4 ≤ s.size := by
+  rw [reset_false_eq] at h
+  split at h
+  · cases h
+  · split at h
+    · cases h
+    · cases h
+      exact ⟨mk_table _ _ _ _, mk_mask _ _ _ _, mk_sampleSize _ _ _ _, mk_size _ _ _ _,
+        by omega, by omega⟩
+
+theorem wf_reset {s s' : Sketch} (hwf : WF s) (h : reset false s = .ok s') : WF s' := by
+  obtain ⟨ht, hm, _, _, _, _⟩ := reset_ok h
+  apply wf_of_parts
+  · rw [ht]; exact wordsOK_map_halve _
+  · rw [ht, hm, Array.size_map]; exact hwf.2.1
+  · rw [hm]; exact hwf.2.2.1
+  · rw [ht, Array.size_map]; exact hwf.2.2.2
+
+/-- An aging step floor-halves every counter. -/
+theorem reset_cnt {s s' : Sketch} (h : reset false s = .ok s') (x y : Nat) (hy : y < 16) :
+    cntAt s'.table x y = cntAt s.table x y / 2 := by
+  rw [(reset_ok h).1]; exact cntAt_map_halve _ _ _ hy
+
+/-- An aging step floor-halves every frequency estimate. -/
+theorem reset_frequency {s s' : Sketch} (h : reset false s = .ok s') (hash : UInt64) :
+    frequency s' hash = frequency s hash / 2 := by
+  obtain ⟨ht, hm, _⟩ := reset_ok h
+  exact frequency_halved hm (by rw [ht, Array.size_map]) (fun x y hy => reset_cnt h x y hy) hash
+
+/-! ## §E  Case analysis of one step; the no-overflow invariant -/
+
+theorem incrStep_empty {s : Sketch} (hash : UInt64) (h0 : s.table.size = 0) :
+    incrStep s hash = .ok (s, false) := by
+  unfold incrStep; rw [if_pos h0]
+
+/-- The two ways a step on a non-empty table can succeed. -/
+theorem incrStep_cases {s s' : Sketch} {r : Bool} {hash : UInt64} (hne : s.table.size ≠ 0)
+    (h : incrStep s hash = .ok (s', r)) :
+    (r = false ∧ s' = bump s hash ∧ ((bumpTable s hash).2 = true → s.size + 1 < s.sampleSize)) ∨
+    (r = true ∧ reset false (bump s hash) = .ok s' ∧ (bumpTable s hash).2 = true ∧
+      s.sampleSize ≤ s.size + 1) := by
+  unfold incrStep at h
+  rw [if_neg hne] at h
+  generalize hres : reset false (bump s hash) = res at h
+  generalize bump s hash = b at h hres ⊢
+  generalize (bumpTable s hash).2 = a at h ⊢
+  by_cases ha : a = true
+  · rw [if_pos ha] at h
+    by_cases ho : s.size + 1 > U32_MAX
+    · rw [if_pos ho] at h; cases h
+    · rw [if_neg ho] at h
+      by_cases hs : s.size + 1 ≥ s.sampleSize
+      · rw [if_pos hs] at h
+        cases res with
+        | error e => cases h
+        | ok s2 =>
+          cases h
+          exact Or.inr ⟨rfl, rfl, ha, hs⟩
+      · rw [if_neg hs] at h
+        cases h
+        exact Or.inl ⟨rfl, rfl, fun _ => by omega⟩
+  · rw [if_neg ha] at h
+    cases h
+    exact Or.inl ⟨rfl, rfl, fun hh => absurd hh ha⟩
+
+/-- The no-overflow invariant: the counters sum to at most `4 * size + 3`, and
+`size < sampleSize ≤ i32::MAX` between increments. -/
+def CInv (s : Sketch) : Prop :=
+  tableSum s.table ≤ 4 * s.size + 3 ∧ s.size < s.sampleSize ∧ s.sampleSize ≤ 2147483647
+
+theorem bump_sum_size {s : Sketch} (hwf : WF s) (hne : s.table.size ≠ 0) (hash : UInt64) :
+    tableSum (bump s hash).table + 4 * s.size ≤ tableSum s.table + 4 * (bump s hash).size ∧
+      s.size ≤ (bump s hash).size ∧ (bump s hash).size ≤ s.size + 1 ∧
+      ((bumpTable s hash).2 = true → (bump s hash).size = s.size + 1) ∧
+      (¬ (bumpTable s hash).2 = true → (bump s hash).size = s.size) := by
+  have h1 := bump_sum hwf hne hash
+  have h2 := bump_size s hash
+  generalize tableSum (bump s hash).table = A at h1 ⊢
+  generalize (bump s hash).size = B at h2 ⊢
+  generalize tableSum s.table = C at h1 ⊢
+  generalize (bumpTable s hash).2 = a at h1 h2 ⊢
+  cases a
+  · simp at h1 h2 ⊢; omega
+  · simp at h1 h2 ⊢; omega
+
+/-- Arithmetic heart of the repair: Caffeine's formula keeps `Σ ≤ 4·size + 3`. -/
+theorem reset_arith (sumB sumR count n : Nat) (h1 : 2 * sumR + count = sumB)
+    (h2 : sumB ≤ 4 * n + 3) : sumR ≤ 4 * ((n - count / 4) / 2) + 3 ∧ count / 4 ≤ n := by
+  omega
+
+theorem cinv_step {s s' : Sketch} {r : Bool} {hash : UInt64} (hwf : WF s)
+    (hne : s.table.size ≠ 0) (hc : CInv s) (h : incrStep s hash = .ok (s', r)) : CInv s' := by
+  obtain ⟨c1, c2, c3⟩ := hc
+  obtain ⟨b1, b2, b3, b4, b5⟩ := bump_sum_size hwf hne hash
+  have bs := bump_sampleSize s hash
+  rcases incrStep_cases hne h with ⟨_, rfl, hlt⟩ | ⟨_, hres, ha, hge⟩
+  · unfold CInv
+    rw [bs]
+    generalize tableSum (bump s hash).table = A at *
+    generalize (bump s hash).size = B at *
+    generalize tableSum s.table = C at *
+    by_cases ha : (bumpTable s hash).2 = true
+    · have := hlt ha; have := b4 ha
+      exact ⟨by omega, by omega, c3⟩
+    · have := b5 ha
+      exact ⟨by omega, by omega, c3⟩
+  · obtain ⟨rt, _, rs, rz, _, _⟩ := reset_ok hres
+    have ht := tableSum_map_halve (bump s hash).table
+    have := b4 ha
+    unfold CInv
+    rw [rt, rs, rz, bs]
+    generalize tableSum (Array.map halveWord (bump s hash).table) = R at *
+    generalize oddTotal (bump s hash).table = K at *
+    generalize tableSum (bump s hash).table = A at *
+    generalize (bump s hash).size = B at *
+    generalize tableSum s.table = C at *
+    have := reset_arith A R K B ht (by omega)
+    exact ⟨this.1, by omega, c3⟩
+
+/-- `increment false` preserves well-formedness (no other invariant needed). -/
+theorem wf_step {s s' : Sketch} {r : Bool} {hash : UInt64} (hwf : WF s)
+    (h : incrStep s hash = .ok (s', r)) : WF s' := by
+  by_cases hne : s.table.size = 0
+  · rw [incrStep_empty hash hne] at h
+    cases h; exact hwf
+  · rcases incrStep_cases hne h with ⟨_, rfl, _⟩ | ⟨_, hres, _, _⟩
+    · exact wf_bump hwf hash
+    · exact wf_reset (wf_bump hwf hash) hres
+
+theorem dropFlag_ok {x : Except Fault (Sketch × Bool)} {s' : Sketch} (h : dropFlag x = .ok s') :
+    ∃ r, x = .ok (s', r) := by
+  cases x with
+  | error e => cases h
+  | ok p =>
+    obtain ⟨a, b⟩ := p
+    cases h
+    exact ⟨b, rfl⟩
+
+theorem wf_increment {s s' : Sketch} (hash : UInt64) (hwf : WF s)
+    (h : increment false s hash = .ok s') : WF s' := by
+  rw [increment_eq_incrStep] at h
+  obtain ⟨r, hr⟩ := dropFlag_ok h
+  exact wf_step hwf hr
+
+/-- Mask, sample size and table size never change. -/
+theorem step_frame {s s' : Sketch} {r : Bool} {hash : UInt64}
+    (h : incrStep s hash = .ok (s', r)) :
+    s'.mask = s.mask ∧ s'.sampleSize = s.sampleSize ∧ s'.table.size = s.table.size := by
+  by_cases hne : s.table.size = 0
+  · rw [incrStep_empty hash hne] at h
+    cases h; exact ⟨rfl, rfl, rfl⟩
+  · rcases incrStep_cases hne h with ⟨_, rfl, _⟩ | ⟨_, hres, _, _⟩
+    · exact ⟨bump_mask s hash, bump_sampleSize s hash, bump_table_size s hash⟩
+    · obtain ⟨rt, rm, rs, _⟩ := reset_ok hres
+      refine ⟨by rw [rm, bump_mask], by rw [rs, bump_sampleSize], ?_⟩
+      rw [rt, Array.size_map, bump_table_size]
+
+/-- With the invariant and a table below `2^28` words a step cannot fault. -/
+theorem step_ok {s : Sketch} (hwf : WF s) (hne : s.table.size ≠ 0) (hc : CInv s)
+    (hsmall : s.table.size < 2 ^ 28) (hash : UInt64) :
+    ∃ s' r, incrStep s hash = .ok (s', r) := by
+  obtain ⟨c1, c2, c3⟩ := hc
+  obtain ⟨b1, b2, b3, b4, b5⟩ := bump_sum_size hwf hne hash
+  unfold incrStep
+  rw [if_neg hne]
+  by_cases ha : (bumpTable s hash).2 = true
+  · rw [if_pos ha]
+    have ho : ¬ s.size + 1 > U32_MAX := by unfold U32_MAX; omega
+    rw [if_neg ho]
+    by_cases hs : s.size + 1 ≥ s.sampleSize
+    · rw [if_pos hs, reset_false_eq]
+      have k1 := oddTotal_le_size (bump s hash).table
+      have k2 := oddTotal_le_tableSum (bump s hash).table
+      rw [bump_table_size] at k1
+      have := b4 ha
+      generalize oddTotal (bump s hash).table = K at *
+      generalize tableSum (bump s hash).table = A at *
+      generalize (bump s hash).size = B at *
+      generalize tableSum s.table = C at *
+      have n1 : ¬ K > U32_MAX := by unfold U32_MAX; omega
+      have n2 : ¬ B < K / 4 := by omega
+      rw [if_neg n1, if_neg n2]
+      exact ⟨_, _, rfl⟩
+    · rw [if_neg hs]; exact ⟨_, _, rfl⟩
+  · rw [if_neg ha]; exact ⟨_, _, rfl⟩
+
+/-! ## §F  Runs with the ghost count -/
+
+/-- The ghost: for every hash, the number of times it was recorded, saturating at 15,
+floor-halved at every aging step. -/
+abbrev Ghost := UInt64 → Nat
+
+/-- Update of the ghost when `h` is recorded; `aged` tells whether this very increment ran the
+aging step. -/
+def ghostStep (g : Ghost) (h : UInt64) (aged : Bool) : Ghost :=
+  fun x => if aged then (if x = h then satInc (g x) else g x) / 2
+           else (if x = h then satInc (g x) else g x)
+
+/-- Record one hash: the model's `increment false` (through `incrStep`), and the ghost. -/
+def stepG (st : Sketch × Ghost) (h : UInt64) : Except Fault (Sketch × Ghost) :=
+  match incrStep st.1 h with
+  | .ok p => .ok (p.1, ghostStep st.2 h p.2)
+  | .error e => .error e
+
+/-- Record a sequence of hashes. -/
+def runG : Sketch × Ghost → List UInt64 → Except Fault (Sketch × Ghost)
+  | st, [] => .ok st
+  | st, h :: hs =>
+    match stepG st h with
+    | .ok st' => runG st' hs
+    | .error e => .error e
+
+/-- The same run on the model alone. -/
+def run : Sketch → List UInt64 → Except Fault Sketch
+  | s, [] => .ok s
+  | s, h :: hs =>
+    match increment false s h with
+    | .ok s' => run s' hs
+    | .error e => .error e
+
+theorem runG_nil (st : Sketch × Ghost) : runG st [] = .ok st := rfl
+
+theorem runG_cons (st : Sketch × Ghost) (h : UInt64) (hs : List UInt64) :
+    runG st (h :: hs) = match stepG st h with
+      | .ok st' => runG st' hs
+      | .error e => .error e := rfl
+
+theorem run_nil (s : Sketch) : run s [] = .ok s := rfl
+
+theorem run_cons (s : Sketch) (h : UInt64) (hs : List UInt64) :
+    run s (h :: hs) = match increment false s h with
+      | .ok s' => run s' hs
+      | .error e => .error e := rfl
+
+theorem run_eq_foldlM (s : Sketch) (hs : List UInt64) :
+    run s hs = hs.foldlM (increment false) s := by
+  induction hs generalizing s with
+  | nil => rfl
+  | cons h hs ih =>
+    rw [List.foldlM_cons, run_cons]
+    generalize increment false s h = r
+    cases r with
+    | error e => rfl
+    | ok s' => exact ih s'
+
+/-- The ghost run projects onto the model run. -/
+theorem run_of_runG (s : Sketch) (g : Ghost) (hs : List UInt64) :
+    run s hs = match runG (s, g) hs with
+      | .ok st => .ok st.1
+      | .error e => .error e := by
+  induction hs generalizing s g with
+  | nil => rfl
+  | cons h hs ih =>
+    rw [run_cons, runG_cons]
+    unfold stepG
+    rw [increment_eq_incrStep]
+    generalize incrStep s h = r
+    cases r with
+    | error e => rfl
+    | ok p => exact ih p.1 _
+
+theorem runG_append (st : Sketch × Ghost) (hs hs' : List UInt64) :
+    runG st (hs ++ hs') = match runG st hs with
+      | .ok st' => runG st' hs'
+      | .error e => .error e := by
+  induction hs generalizing st with
+  | nil => rfl
+  | cons h hs ih =>
+    rw [List.cons_append, runG_cons, runG_cons]
+    generalize stepG st h = r
+    cases r with
+    | error e => rfl
+    | ok st' => exact ih st'
+
+/-- Every prefix of a successful run is a successful run. -/
+theorem runG_prefix_ok {st st' : Sketch × Ghost} {hs hs' : List UInt64}
+    (h : runG st (hs ++ hs') = .ok st') : ∃ st1, runG st hs = .ok st1 ∧ runG st1 hs' = .ok st' := by
+  rw [runG_append] at h
+  generalize runG st hs = r at h
+  cases r with
+  | error e => cases h
+  | ok st1 => exact ⟨st1, rfl, h⟩
+
+theorem stepG_ok {s s' : Sketch} {g g' : Ghost} {h : UInt64}
+    (hst : stepG (s, g) h = .ok (s', g')) :
+    ∃ r, incrStep s h = .ok (s', r) ∧ g' = ghostStep g h r := by
+  unfold stepG at hst
+  generalize incrStep s h = res at hst
+  cases res with
+  | error e => cases hst
+  | ok p =>
+    obtain ⟨a, b⟩ := p
+    cases hst
+    exact ⟨b, rfl, rfl⟩
+
+/-! ### Counters of a hash across `bump` and `reset` -/
+
+theorem satInc_mono {a b : Nat} (h : a ≤ b) : satInc a ≤ satInc b := by
+  unfold satInc; omega
+
+theorem counterAt_bump {s : Sketch} (hwf : WF s) (hne : s.table.size ≠ 0) (h x : UInt64)
+    (i : Nat) :
+    counterAt (bump s h) x i =
+      if hits s h (s.indexOf x i) (start x + i) then satInc (counterAt s x i)
+      else counterAt s x i := by
+  rw [counterAt_eq, counterAt_eq, indexOf_congr (bump_mask s h), bump_cnt hwf hne]
+
+theorem counterAt_reset {s s' : Sketch} (h : reset false s = .ok s') (x : UInt64) (i : Nat)
+    (hi : i < 4) : counterAt s' x i = counterAt s x i / 2 := by
+  have hs := start_le x
+  rw [counterAt_eq, counterAt_eq, indexOf_congr (reset_ok h).2.1,
+    reset_cnt h _ _ (show start x + i < 16 by omega)]
+
+/-- The invariant of runs started in `s0`, after the hashes `pre` were recorded. -/
+structure RInv (s0 : Sketch) (pre : List UInt64) (s : Sketch) (g : Ghost) : Prop where
+  wf : WF s
+  ne : s.table.size ≠ 0
+  cinv : CInv s
+  mask : s.mask = s0.mask
+  sample : s.sampleSize = s0.sampleSize
+  tsize : s.table.size = s0.table.size
+  /-- no counter of `h` is below the ghost count of `h` -/
+  lower : ∀ h i, i < 4 → g h ≤ counterAt s h i
+  /-- a counter of `h` that no other recorded hash uses equals the ghost count of `h` -/
+  exact : ∀ h i, i < 4 →
+    (∀ h', h' ∈ pre → h' ≠ h → ¬ hits s0 h' (s0.indexOf h i) (start h + i)) →
+    counterAt s h i = g h
+  /-- the ghost is itself a 4-bit value -/
+  gle : ∀ h, g h ≤ 15
+
+theorem rinv_step {s0 s s' : Sketch} {pre : List UInt64} {g g' : Ghost} {h : UInt64}
+    (inv : RInv s0 pre s g) (hst : stepG (s, g) h = .ok (s', g')) :
+    RInv s0 (pre ++ [h]) s' g' := by
+  obtain ⟨r, hstep, rfl⟩ := stepG_ok hst
+  obtain ⟨fm, fs, ft⟩ := step_frame hstep
+  have hwf' := wf_step inv.wf hstep
+  have hc' := cinv_step inv.wf inv.ne inv.cinv hstep
+  -- the state between the counter updates and the aging step
+  have lowerB : ∀ x i, i < 4 →
+      (if x = h then satInc (g x) else g x) ≤ counterAt (bump s h) x i := by
+    intro x i hi
+    have l := inv.lower x i hi
+    rw [counterAt_bump inv.wf inv.ne]
+    by_cases hx : x = h
+    · subst hx
+      rw [if_pos rfl, if_pos (hits_self s x i hi)]
+      exact satInc_mono l
+    · rw [if_neg hx]
+      split
+      · have : counterAt s x i ≤ satInc (counterAt s x i) := by
+          have := counterAt_le s x i; unfold satInc; omega
+        exact Nat.le_trans l this
+      · exact l
+  have exactB : ∀ x i, i < 4 →
+      (∀ h', h' ∈ pre ++ [h] → h' ≠ x → ¬ hits s0 h' (s0.indexOf x i) (start x + i)) →
+      counterAt (bump s h) x i = (if x = h then satInc (g x) else g x) := by
+    intro x i hi hfree
+    have e := inv.exact x i hi (fun h' hm => hfree h' (List.mem_append_left _ hm))
+    rw [counterAt_bump inv.wf inv.ne]
+    by_cases hx : x = h
+    · subst hx
+      rw [if_pos rfl, if_pos (hits_self s x i hi), e]
+    · have hn := hfree h (List.mem_append_right _ (List.mem_singleton.2 rfl)) (fun e => hx e.symm)
+      rw [← indexOf_congr inv.mask, ← hits_congr inv.mask] at hn
+      rw [if_neg hx, if_neg hn, e]
+  have gleB : ∀ x, (if x = h then satInc (g x) else g x) ≤ 15 := by
+    intro x
+    have := inv.gle x
+    unfold satInc
+    split <;> omega
+  refine ⟨hwf', by rw [ft]; exact inv.ne, hc', by rw [fm]; exact inv.mask,
+    by rw [fs]; exact inv.sample, by rw [ft]; exact inv.tsize, ?_, ?_, ?_⟩
+  · intro x i hi
+    rcases incrStep_cases inv.ne hstep with ⟨rfl, rfl, _⟩ | ⟨rfl, hres, _, _⟩
+    · exact lowerB x i hi
+    · rw [counterAt_reset hres x i hi]
+      show (if x = h then satInc (g x) else g x) / 2 ≤ _
+      exact Nat.div_le_div_right (lowerB x i hi)
+  · intro x i hi hfree
+    rcases incrStep_cases inv.ne hstep with ⟨rfl, rfl, _⟩ | ⟨rfl, hres, _, _⟩
+    · exact exactB x i hi hfree
+    · rw [counterAt_reset hres x i hi, exactB x i hi hfree]
+      rfl
+  · intro x
+    have := gleB x
+    cases r
+    · exact this
+    · show (if x = h then satInc (g x) else g x) / 2 ≤ 15
+      omega
+
+theorem rinv_run {s0 : Sketch} {pre hs : List UInt64} {st st' : Sketch × Ghost}
+    (inv : RInv s0 pre st.1 st.2) (h : runG st hs = .ok st') :
+    RInv s0 (pre ++ hs) st'.1 st'.2 := by
+  induction hs generalizing st pre with
+  | nil =>
+    cases h
+    rw [List.append_nil]; exact inv
+  | cons x hs ih =>
+    rw [runG_cons] at h
+    generalize hr : stepG st x = res at h
+    cases res with
+    | error e => cases h
+    | ok st1 =>
+      have i1 : RInv s0 (pre ++ [x]) st1.1 st1.2 := rinv_step (s := st.1) (g := st.2) inv hr
+      have := ih i1 h
+      rwa [List.append_assoc, List.singleton_append] at this
+
+/-- With a table below `2^28` words a run from an invariant state never faults. -/
+theorem run_ok_of_rinv {s0 : Sketch} {pre : List UInt64} {st : Sketch × Ghost}
+    (inv : RInv s0 pre st.1 st.2) (hsmall : s0.table.size < 2 ^ 28) (hs : List UInt64) :
+    ∃ st', runG st hs = .ok st' := by
+  induction hs generalizing st pre with
+  | nil => exact ⟨st, rfl⟩
+  | cons x hs ih =>
+    obtain ⟨s1, r, hstep⟩ :=
+      step_ok inv.wf inv.ne inv.cinv (by rw [inv.tsize]; exact hsmall) x
+    have hst : stepG st x = .ok (s1, ghostStep st.2 x r) := by
+      unfold stepG; rw [hstep]
+    have i1 := rinv_step (s := st.1) (g := st.2) inv hst
+    obtain ⟨st', h'⟩ := ih (st := (s1, ghostStep st.2 x r)) i1
+    exact ⟨st', by rw [runG_cons, hst]; exact h'⟩
+
+/-! ### The initial state -/
+
+/-- Nothing recorded yet. -/
+def ghost0 : Ghost := fun _ => 0
+
+theorem nib_zero (j : Nat) : nib 0 j = 0 := by
+  unfold nib; rw [Nat.zero_div, Nat.zero_mod]
+
+theorem init_table (cap : Nat) : (init cap).table = Array.replicate (tableSizeFor cap) 0 := by
+  rw [init_eq]
+theorem init_size (cap : Nat) : (init cap).size = 0 := by
+  rw [init_eq]
+
+theorem counterAt_init (cap : Nat) (h : UInt64) (i : Nat) : counterAt (init cap) h i = 0 := by
+  rw [counterAt_eq, init_table]
+  unfold cntAt
+  rw [getD_replicate_zero, nib_zero]
+
+theorem cinv_init (cap : Nat) : CInv (init cap) := by
+  have h := init_sampleSize cap
+  refine ⟨?_, ?_, h.2⟩
+  · rw [init_table, tableSum_replicate_zero]; omega
+  · rw [init_size]; omega
+
+theorem rinv_init (cap : Nat) : RInv (init cap) [] (init cap) ghost0 where
+  wf := wf_init cap
+  ne := init_table_ne cap
+  cinv := cinv_init cap
+  mask := rfl
+  sample := rfl
+  tsize := rfl
+  lower := fun _ _ _ => Nat.zero_le _
+  exact := fun h i _ _ => counterAt_init cap h i
+  gle := fun _ => Nat.zero_le _
+
+/-- Every state of every run from `init cap` satisfies the run invariant. -/
+theorem rinv_of_run {cap : Nat} {hs : List UInt64} {s : Sketch} {g : Ghost}
+    (h : runG (init cap, ghost0) hs = .ok (s, g)) : RInv (init cap) hs s g := by
+  have := rinv_run (st := (init cap, ghost0)) (pre := []) (rinv_init cap) h
+  rwa [List.nil_append] at this
+
+theorem init_small {cap : Nat} (hcap : cap ≤ 2 ^ 27) : (init cap).table.size < 2 ^ 28 := by
+  rw [init_table_size]
+  have := tableSizeFor_le cap 27 hcap
+  omega
+
+/-- Frequencies in terms of the ghost, for states satisfying the invariant. -/
+theorem ghost_le_frequency {s0 s : Sketch} {pre : List UInt64} {g : Ghost}
+    (inv : RInv s0 pre s g) (h : UInt64) : g h ≤ frequency s h :=
+  (le_frequency_iff s h inv.ne _).2 (fun i hi => inv.lower h i hi)
+
+theorem frequency_eq_ghost {s0 s : Sketch} {pre : List UInt64} {g : Ghost}
+    (inv : RInv s0 pre s g) (h : UInt64) (i : Nat) (hi : i < 4)
+    (hfree : ∀ h', h' ∈ pre → h' ≠ h → ¬ hits s0 h' (s0.indexOf h i) (start h + i)) :
+    frequency s h = g h := by
+  have h1 := ghost_le_frequency inv h
+  have h2 := frequency_le_counterAt s h inv.ne i hi
+  rw [inv.exact h i hi hfree] at h2
+  omega
+
+/-- A step without aging never lowers any frequency. -/
+theorem frequency_step_mono {s s' : Sketch} {h' : UInt64} (hwf : WF s)
+    (hstep : incrStep s h' = .ok (s', false)) (h : UInt64) :
+    frequency s h ≤ frequency s' h := by
+  by_cases hne : s.table.size = 0
+  · rw [incrStep_empty h' hne] at hstep
+    cases hstep; exact Nat.le_refl _
+  · rcases incrStep_cases hne hstep with ⟨_, rfl, _⟩ | ⟨hr, _⟩
+    · exact frequency_mono (bump_mask s h') hne (by rw [bump_table_size]; exact hne)
+        (fun x y => bump_cnt_ge hwf hne h' x y) h
+    · cases hr
+
+theorem frequency_bump_mono {s : Sketch} (hwf : WF s) (hne : s.table.size ≠ 0) (h' h : UInt64) :
+    frequency s h ≤ frequency (bump s h') h :=
+  frequency_mono (bump_mask s h') hne (by rw [bump_table_size]; exact hne)
+    (fun x y => bump_cnt_ge hwf hne h' x y) h
+
+/-- A step with aging: the result is the aging step applied to `bump s h'`. -/
+theorem step_aged {s s' : Sketch} {h' : UInt64} (hstep : incrStep s h' = .ok (s', true)) :
+    reset false (bump s h') = .ok s' := by
+  by_cases hne : s.table.size = 0
+  · rw [incrStep_empty h' hne] at hstep
+    cases hstep
+  · rcases incrStep_cases hne hstep with ⟨hr, _⟩ | ⟨_, hres, _, _⟩
+    · cases hr
+    · exact hres
+
+/-- The table bound for `count : u32` is tight at the level of tables: a table of `n` words
+whose sixteen counters are all 1 has `16 * n` odd counters. -/
+theorem oddTotal_all_ones (n : Nat) :
+    oddTotal (Array.replicate n 0x1111111111111111) = 16 * n := by
+  unfold oddTotal sumBy
+  rw [Array.toList_replicate]
+  induction n with
+  | zero => rfl
+  | succ n ih =>
+    rw [List.replicate_succ, List.map_cons, List.sum_cons, ih]
+    have : oddCount 0x1111111111111111 = 16 := by decide
+    omega
+
+/-! ## §G  The only possible fault; helpers for evaluating concrete runs -/
+
+/-- In an invariant state the only way a step can fault is the `u32` counter of odd nibbles
+in `reset` (`count`) exceeding `u32::MAX`; everything else (`size + 1`, `size - count/4`) is
+safe. -/
+theorem step_total {s : Sketch} (hwf : WF s) (hne : s.table.size ≠ 0) (hc : CInv s)
+    (hash : UInt64) :
+    (∃ s' r, incrStep s hash = .ok (s', r)) ∨
+    (incrStep s hash = .error .overflow ∧ U32_MAX < oddTotal (bump s hash).table ∧
+      s.sampleSize ≤ s.size + 1) := by
+  obtain ⟨c1, c2, c3⟩ := hc
+  obtain ⟨b1, b2, b3, b4, b5⟩ := bump_sum_size hwf hne hash
+  unfold incrStep
+  rw [if_neg hne]
+  by_cases ha : (bumpTable s hash).2 = true
+  · rw [if_pos ha]
+    have ho : ¬ s.size + 1 > U32_MAX := by unfold U32_MAX; omega
+    rw [if_neg ho]
+    by_cases hs : s.size + 1 ≥ s.sampleSize
+    · rw [if_pos hs, reset_false_eq]
+      by_cases n1 : oddTotal (bump s hash).table > U32_MAX
+      · rw [if_pos n1]
+        exact Or.inr ⟨rfl, n1, hs⟩
+      · rw [if_neg n1]
+        have k2 := oddTotal_le_tableSum (bump s hash).table
+        have := b4 ha
+        have n2 : ¬ (bump s hash).size < oddTotal (bump s hash).table / 4 := by
+          generalize oddTotal (bump s hash).table = K at *
+          generalize tableSum (bump s hash).table = A at *
+          generalize (bump s hash).size = B at *
+          generalize tableSum s.table = C at *
+          omega
+        rw [if_neg n2]
+        exact Or.inl ⟨_, _, rfl⟩
+    · rw [if_neg hs]; exact Or.inl ⟨_, _, rfl⟩
+  · rw [if_neg ha]; exact Or.inl ⟨_, _, rfl⟩
+
+/-- What makes every check of one increment pass, spelled out: `size + 1` fits `u32`, `count`
+fits `u32` (tables below `2^28` words), `count >> 2 ≤ size`. -/
+theorem bump_safe {s : Sketch} (hwf : WF s) (hne : s.table.size ≠ 0) (hc : CInv s)
+    (hsmall : s.table.size < 2 ^ 28) (hash : UInt64) (ha : (bumpTable s hash).2 = true) :
+    s.size + 1 ≤ U32_MAX ∧ oddTotal (bump s hash).table ≤ U32_MAX ∧
+      oddTotal (bump s hash).table / 4 ≤ (bump s hash).size := by
+  obtain ⟨c1, c2, c3⟩ := hc
+  obtain ⟨b1, b2, b3, b4, b5⟩ := bump_sum_size hwf hne hash
+  have k1 := oddTotal_le_size (bump s hash).table
+  have k2 := oddTotal_le_tableSum (bump s hash).table
+  rw [bump_table_size] at k1
+  have := b4 ha
+  generalize oddTotal (bump s hash).table = K at *
+  generalize tableSum (bump s hash).table = A at *
+  generalize (bump s hash).size = B at *
+  generalize tableSum s.table = C at *
+  unfold U32_MAX
+  omega
+
+theorem increment_of_incrStep {s s' : Sketch} {r : Bool} {hash : UInt64}
+    (h : incrStep s hash = .ok (s', r)) : increment false s hash = .ok s' := by
+  rw [increment_eq_incrStep, h]; rfl
+
+deriving instance DecidableEq for Sketch
+
+instance (s : Sketch) : Decidable (CInv s) := by
+  unfold CInv; infer_instance
+
+/-- Boolean test of the outcome of a ghost run. -/
+def checkRun (r : Except Fault (Sketch × Ghost)) (p : Sketch → Ghost → Bool) : Bool :=
+  match r with
+  | .ok st => p st.1 st.2
+  | .error _ => false
+
+theorem exists_of_checkRun {r : Except Fault (Sketch × Ghost)} {P : Sketch → Ghost → Prop}
+    [∀ s g, Decidable (P s g)] (h : checkRun r (fun s g => decide (P s g)) = true) :
+    ∃ s g, r = .ok (s, g) ∧ P s g := by
+  cases r with
+  | error e => cases h
+  | ok st => exact ⟨st.1, st.2, rfl, of_decide_eq_true h⟩
+
+def isOkEq (r : Except Fault Sketch) (s : Sketch) : Bool :=
+  match r with
+  | .ok s' => decide (s' = s)
+  | .error _ => false
+
+theorem eq_ok_of_isOkEq {r : Except Fault Sketch} {s : Sketch} (h : isOkEq r s = true) :
+    r = .ok s := by
+  cases r with
+  | error e => cases h
+  | ok s' => rw [of_decide_eq_true h]
+
+def isOverflow (r : Except Fault Sketch) : Bool :=
+  match r with
+  | .error .overflow => true
+  | _ => false
+
+theorem eq_overflow_of_isOverflow {r : Except Fault Sketch} (h : isOverflow r = true) :
+    r = .error .overflow := by
+  cases r with
+  | ok s => cases h
+  | error e => cases e <;> first | rfl | cases h
+
+/-! ### Witnesses used by the examples -/
+
+/-- Capacity 3: table of 4 words (64 counters), `sampleSize = 30`.  The sixteen hashes of
+`legacyCover` use the 64 counters exactly once each; after them seven of these hashes are
+recorded twice more, minus the last recording: 29 increments, every counter is 1 or 3. -/
+def legacyCover : List UInt64 :=
+  [0, 28, 52, 212, 1, 37, 121, 241, 2, 78, 154, 338, 3, 47, 119, 123]
+
+def legacyHs : List UInt64 :=
+  legacyCover ++ [0, 0, 28, 28, 52, 52, 212, 212, 1, 1, 37, 37, 121]
+
+/-- The state reached by `legacyHs` from `init 3`. -/
+def legacyState : Sketch :=
+  { sampleSize := 30, mask := 3,
+    table := #[1229782938803188531, 1229782938282963763, 1229782938818851635,
+               1229782938515878707],
+    size := 29 }
+
 end Sketch
 end MiniMoka
